@@ -1418,14 +1418,18 @@ func inject(r *vh.Rng, j *mJob, kind string) bool {
 		t.Part = &mPart{2, int64(vh.Pick(r, []int{0, -3})), 0, 0}
 		t.MinAvail = nil
 	case "partition-replicas":
-		t.Part = &mPart{2, 2, 0, 0}
-		t.Replicas = int64(vh.Pick(r, []int{3, 5, 8}))
+		tp, sz := int64(r.Range(1, 3)), int64(r.Range(1, 3))
+		t.Part = &mPart{tp, sz, 0, 0}
+		t.Replicas = vh.Pick(r, []int64{0, 0, tp*sz - 1, tp*sz + 1, tp * sz * 2, tp + sz + 7})
+		if t.Replicas == tp*sz {
+			t.Replicas = 0
+		}
 		t.MinAvail = nil
 		j.MinAvail = 0
 	case "partition-minavail":
 		t.Part = &mPart{3, 2, 2, 0}
 		t.Replicas = 6
-		t.MinAvail = p64(int64(vh.Pick(r, []int{2, 3, 5, 6})))
+		t.MinAvail = p64(int64(vh.Pick(r, []int{0, 2, 3, 5, 6})))
 	case "partition-nt-conflict":
 		t.Part = &mPart{1, 1, 0, 3}
 		t.Replicas = 1
